@@ -500,6 +500,8 @@ output:
     - go: {package_root: gen}
     - typescript: {}
     - python: {}
+    - jsonschema: {}
+    - openapi: {}
 `,
 		}},
 		// a builder merged into another with chained option renames (every map-typed
@@ -537,6 +539,19 @@ builders:
         name: title
         title: description
         subtitle: name
+options:
+  - rename: {by_name: Dashboard.uid, as: heading}
+`,
+			// rules for one language only, which do not commute with the common ones
+			"veneers/demo.go.yaml": `language: go
+package: demo
+options:
+  - rename: {by_builder: Dashboard.heading, as: caption}
+`,
+			"veneers/demo.python.yaml": `language: python
+package: demo
+options:
+  - rename: {by_builder: Dashboard.heading, as: legend}
 `,
 			"pipeline.yaml": `inputs:
   - cue: {entrypoint: '%__config_dir%/in/demo'}
